@@ -13,6 +13,7 @@ import (
 )
 
 type batchItem struct {
+	Lenient bool           `json:"lenient"`
 	ID      int            `json:"id"`
 	Harness string         `json:"harness"`
 	Tier    string         `json:"tier"`
@@ -39,6 +40,7 @@ func TestReplayBatch(t *testing.T) {
 			continue
 		}
 		verif.Reset(it.Witness, it.Tier, it.Bounds)
+		verif.Lenient = it.Lenient
 		func() {
 			defer func() {
 				if r := recover(); r != nil {
